@@ -15,6 +15,6 @@ mcSetup == << [op |-> "CreateTopic", name |-> "t1"], [op |-> "CreateTopic", name
 mcMsgKinds == { [key |-> "", attrs |-> <<>>] }
 mcProjOfName == <<>>
 mcWeights == <<>>
-mcOps == {"Publish", "Pull", "Nack", "DLSweep", "Tick"}
+mcOps == {"Publish", "Pull", "Nack", "DLSweep", "Tick", "DeleteTopic"}
 Shape == (S.ph = Len(Setup) /\ S.nm = 0) => ev'.op = "Publish"
 =============================================================================
